@@ -112,6 +112,8 @@ GENERATED_ONLY = {
     "c_join_fold_map": F(["kv", "kv"], "agg", heavy=True),
     "c_tee_union": F(["n"], "unord"),
 }
+GENERATED_ONLY["t_or"] = F(["n", "n"], "agg", props=("C30",))
+GENERATED_ONLY["t_reduce_watermark"] = F(["kv", "n"], "keyed", props=("C30",))
 for _n in ("x_across_count", "x_across_fold", "x_across_unique"):
     GENERATED_ONLY[_n] = F(["n"], "agg" if _n != "x_across_unique" else "ord", props=("C30",))
 FLOWS.update(GENERATED_ONLY)
@@ -430,6 +432,8 @@ MODELLED_NODES = {
     "DeferTick": "BDefer", "Sort": "BSort", "CrossSingleton": "BCrossSingleton",
     "CycleSource": "loop_run (tick cycle)", "Scan": "SGen / BGen (generator: first / limit)",
     "Tee": "shared subterm duplicated (translator), structural tee()",
+    "ChainFirst": "BChainFirst (Optional::or in a tick)",
+    "ReduceKeyedWatermark": "BReduceKeyedWm (in a tick)",
 }
 
 
@@ -990,6 +994,10 @@ def tr_b(x):
         return "(BReduceKeyed %s %s)" % (_clos(v["f"]), tr_b(v["input"]))
     if k == "DeferTick":
         return "(BDefer %s)" % tr_b(v["input"])
+    if k == "ChainFirst":
+        return "(BChainFirst %s %s)" % (tr_b(v["first"]), tr_b(v["second"]))
+    if k == "ReduceKeyedWatermark":
+        return "(BReduceKeyedWm %s %s %s)" % (_clos(v["f"]), tr_b(v["input"]), tr_b(v["watermark"]))
     raise Untranslatable("tick node " + k)
 
 
